@@ -351,6 +351,9 @@ def _start_thread(tidx, spec):
 
     def run():
         box['ident'] = threading.get_ident()
+        if spec.get('cur'):
+            # a low-level thread that asks `threading` who it is (logging does): threading registers a _DummyThread for it
+            box['name'] = threading.current_thread().name
         started.set()
         if spec.get('hold'):
             ev.wait(60)
@@ -369,6 +372,6 @@ def _start_thread(tidx, spec):
         else:
             import time
             time.sleep(0.05)
-    name = th.name if th is not None else 'Dummy-%s' % box.get('ident')
+    name = th.name if th is not None else box.get('name') or 'Dummy-%s' % box.get('ident')
     emit('thread', tidx, [spec['api'], name, box.get('ident'), bool(spec.get('hold'))])
     _held.append((ev, th, done) if spec.get('hold') else None)
